@@ -18,7 +18,7 @@ SPEC = dict(
                     "fields written/read by each MarshalJSON/UnmarshalJSON")],
     drivers=[
         dict(name="persist", kind="test", pkg="./overlord/state", run="TestVerifC05Persist",
-             n=dict(quick=80, thorough=3000), timeout=dict(quick=300, thorough=1500),
+             n=dict(quick=50, thorough=3000), timeout=dict(quick=300, thorough=1500),
              ev=dict(requires=["V.lib.Bytes", "V.models.StatePersist"], case_type="StatePersist.case",
                      mismatch="StatePersist.mismatch", monitor="StatePersist.monitor_fail")),
     ],
